@@ -964,6 +964,11 @@ fn run_blocking_inner(line: &str) -> String {
     if out == Out::Flush(true) && c.rx == Rx::Stalled && c.prefill > 0 {
         fails.push("c07-blocking-true");
     }
+    // a live receiver keeps running: with seconds to spare it drains what is pending, so the flush succeeds and the
+    // send finds room — a call that comes back empty-handed met a receiver that had stopped
+    if c.rx == Rx::Live && c.timeout >= Duration::from_millis(2000) && matches!(out, Out::Flush(false) | Out::SendErr(_)) {
+        fails.push("c08-live-receiver-stopped");
+    }
     if out == Out::SendErr(None) && c.rx != Rx::Gone {
         fails.push("c09-handback");
     }
